@@ -158,7 +158,7 @@ _TAGS = {
     "listof", "elem", "listdir", "listed", "inst", "selfattr", "callres", "exc", "unknown",
     "probe", "strop", "opt", "int", "self", "hashof", "dictzip", "cmp", "not", "and", "or",
     "stem", "suffix", "bool", "setof", "readlines", "hexdigests", "hashobjs", "module",
-    "class", "func", "walk",
+    "class", "func", "walk", "iattr", "hexdigest", "closing", "obj", "line", "slice", "arith",
 }
 
 
@@ -384,7 +384,7 @@ def classify(t):
             comps = [C(x) for x in s.split("/") if x]
             return classify(J([ROOT] + comps))
         return PathClass("STRING")
-    if tg in ("content", "item", "H", "selfattr", "shard", "callres", "elem", "listed", "const", "strop"):
+    if tg in ("content", "item", "H", "selfattr", "shard", "callres", "elem", "listed", "const", "strop", "iattr", "hexdigest"):
         # an identifier / digest / string used *as is* where a path is expected
         return PathClass("RAWID", t)
     return PathClass("UNKNOWN")
